@@ -14,7 +14,9 @@ RULE = ('a faulty carrier — a file with a lexical or a syntax error, or a decl
         'placement, order)')
 
 LOCAL_KINDS = {'struct-dup-element', 'subrange-min-gt-max', 'subrange-min-eq-max', 'enum-dup-value', 'const-no-init',
-               'undefined-var-rhs', 'undefined-var-target', 'task-undefined', 'fb-self-instance', 'const-fb'}
+               'undefined-var-rhs', 'undefined-var-target', 'task-undefined', 'fb-self-instance', 'const-fb',
+               # a name declared twice is a fault of the set wherever the two declarations stand (same file, two files, copies word for word)
+               'dup-verbatim-adjacent', 'dup-pou-name', 'dup-type-name'}
 BAD_TEXTS = {'lexical': 'PROGRAM N7001\nVAR N7002 : INT; END_VAR\nN7002 := ? 1;\nEND_PROGRAM\n',
              'syntax': 'PROGRAM N7003\nVAR N7004 : INT END_VAR\nEND_PROGRAM\n',
              'unclosed-comment': 'PROGRAM N7005\nEND_PROGRAM\n(* never closed\n'}
@@ -71,7 +73,16 @@ def run(ctx):
                         if reuse == 'cross': same_kind_is_type = not same_kind_is_type
                         # (cross: a data type named like the faulty POU / a program named like the faulty type — the two live in
                         #  different name tables of the analyzer and must not displace each other)
-                        if reuse == 'cross' and faulty[0] == 'C': continue
+                        if reuse == 'cross' and faulty[0] == 'C':
+                            # a second, valid configuration that declares a task with the name the faulty one misses
+                            if fk != 'task-undefined' or not faulty[4]: continue
+                            acc.append(('C', 7150, [], [7999], [(7151, 7999, faulty[4][0][2])]))
+                            files = units.split_files(rng, ds + acc, nfiles)
+                            orders = list(itertools.permutations(range(len(files))))
+                            if len(orders) > 6: orders = rng.sample(orders, 6 if ctx.quick() else 24)
+                            for order in orders:
+                                cases.append({'fault': fk, 'mode': mode, 'reuse': 'second-configuration', 'files': [files[i] for i in order]})
+                            continue
                         if same_kind_is_type:
                             acc.append(('R', faulty[1], 1, 2))
                         else:
